@@ -1,5 +1,5 @@
 use crate::ty::CanDerive;
-use crate::{derives_to_tokens, make_class, make_enum, ToRustIdent, ToRustType};
+use crate::{derives_to_tokens, make_class, make_enum, ToRustCode, ToRustIdent, ToRustType};
 use hir::{Config, HirField, HirSpec, NewType, Record};
 use mir::Item;
 use proc_macro2::TokenStream;
@@ -7,6 +7,7 @@ use quote::quote;
 
 pub fn make_newtype(schema: &NewType, spec: &HirSpec, derives: &Vec<String>) -> Item<TokenStream> {
     let name = schema.name.to_rust_struct();
+    let doc = schema.doc.clone().to_rust_code();
     let fields = schema.fields.iter().map(|f| f.ty.to_rust_type());
     let derives = derives_to_tokens(derives);
     let default = schema
@@ -18,6 +19,7 @@ pub fn make_newtype(schema: &NewType, spec: &HirSpec, derives: &Vec<String>) -> 
         })
         .unwrap_or_default();
     Item::Block(quote! {
+        #doc
         #[derive(Debug, Clone, Serialize, Deserialize #default #derives)]
         pub struct #name(#(pub #fields),*);
     })
